@@ -179,6 +179,13 @@ def step (s : St) (ws : List String) : St × List String :=
       let s' := { s with w := r.1 }
       (s', obs s' r.2)
     | _, _, _, _ => (s, ["bad-op"])
+  | ["copychan", a, b] =>
+    match a.toNat?, b.toNat? with
+    | some a, some b =>
+      let r := Edit.step s.cfg w (.copyChan a b)
+      let s' := { s with w := r.1 }
+      (s', obs s' r.2)
+    | _, _ => (s, ["bad-op"])
   | "dag" :: p :: rest =>
     match p.toNat?, parseDag rest with
     | some p, some (start, up) =>
